@@ -106,7 +106,7 @@ fn install_hook() {
     std::panic::set_hook(Box::new(|info| {
         // Panics are part of normal operation (rejected calls, injected faults) and are silent,
         // except in journal mode, where the last message before the process died is the diagnosis.
-        if VERBOSE.load(std::sync::atomic::Ordering::Relaxed) {
+        if VERBOSE.load(std::sync::atomic::Ordering::Relaxed) || array_engine::IN_GUARDED.with(|g| g.get()) == 0 {
             let msg = info.payload().downcast_ref::<&str>().map(|s| s.to_string()).or_else(|| info.payload().downcast_ref::<String>().cloned()).unwrap_or_default();
             eprintln!("PANIC: {} at {:?}", msg, info.location().map(|l| format!("{}:{}", l.file(), l.line())));
         }
